@@ -2,6 +2,7 @@ package sym
 
 import (
 	"fmt"
+	"go/types"
 	"path"
 	"sort"
 	"strings"
@@ -532,6 +533,20 @@ func (it *Interp) tryMerge(fr *frame, block *ssa.BasicBlock, c *Term) (*ssa.Basi
 	if join == nil || join == block {
 		return nil, nil, false
 	}
+	// word-sized integer phis are almost always cursors, lengths or counts: merging them
+	// turns later slicing/allocation symbolic, forking keeps them concrete
+	for _, ins := range join.Instrs {
+		phi, ok := ins.(*ssa.Phi)
+		if !ok {
+			break
+		}
+		if b, ok := phi.Type().Underlying().(*types.Basic); ok {
+			switch b.Kind() {
+			case types.Int, types.Uint, types.Int64, types.Uint64, types.Uintptr:
+				return nil, nil, false
+			}
+		}
+	}
 	// the join must receive exactly the edges we account for
 	savedPC := len(it.pc)
 	runArm := func(arm *ssa.BasicBlock, guard *Term) bool {
@@ -812,6 +827,7 @@ func (it *Interp) beginPath() {
 	it.md5Apps = nil
 	it.md5Acc = nil
 	it.atoiMap = nil
+	it.gsm7Text = nil
 	it.fpInt = nil
 	it.fpDiv = nil
 	it.fmtTimeVals = nil
